@@ -80,6 +80,10 @@ func newGrainIdentity(grain Grain, name string) *GrainIdentity {
 	return &GrainIdentity{
 		kind: kind,
 		name: name,
+		// filled here rather than lazily in String(): an identity is shared by
+		// every goroutine that addresses the grain, and an unsynchronized lazy
+		// write of a string header can be observed torn by a concurrent reader
+		cachedStr: kind + id.GrainIdentitySeparator + name,
 	}
 }
 
